@@ -65,20 +65,20 @@ def mk_configuration(spec, fc):
         creator_info=spec.get('creator'))
 
 
-def build(spec, model=None, fc=None):
+def build(spec, model=None, fc=None, builder=None):
     """Parse (unless fc is given), configure, build.  Returns the CodeGenResult."""
     from dznpy.adv_shell import Builder
     if fc is None:
         fc = parse_model(model)
     cfg = mk_configuration(spec, fc)
     silence()
-    return Builder().build(cfg)
+    return (builder or Builder()).build(cfg)
 
 
-def outcome(spec, model=None, fc=None):
+def outcome(spec, model=None, fc=None, builder=None):
     """('ok', [(filename, contents, hash)]) or ('err', exception)."""
     try:
-        res = build(spec, model=model, fc=fc)
+        res = build(spec, model=model, fc=fc, builder=builder)
     except Exception as exc:  # pylint: disable=broad-except
         return 'err', exc
     return 'ok', [(f.filename, f.contents, f.hash) for f in res.files]
